@@ -5,6 +5,7 @@ Statements only; helper lemmas are in NV/C17/Lemmas.lean.  Counterexamples for t
 -/
 import NV.C17.Model
 import NV.C17.Lemmas
+import NV.C17.QSortLemmas
 
 namespace NV.C17
 
@@ -259,6 +260,122 @@ example :
       loadBinary { w with files := ("d/y.h", 201) :: w.files } "d/a.c" = .stale "behind-inherited" := by
   decide
 
+/-- what `inc_open` takes for an include directive: the first candidate that exists (the same definition as in
+    Witness.lean, where the full statement is refuted) -/
+def resolveIncludeP (w : World) (cands : List String) : Option String :=
+  cands.find? (fun c => (w.mtime c).isSome)
+
+/-- **include_resolution_partial**: when a binary is used, an include directive still resolves to the file the binary
+    recorded for it PROVIDED no candidate earlier in the search order exists (the side condition that the open finding
+    C17-include-shadowed is about: `load_binary` cannot see a new file in front of a recorded one) -/
+theorem include_resolution_partial (w : World) (name : String) (pre post : List String) (r : String)
+    (h : loadBinary w name = .use) (hr : ∀ b, w.bins.lookup (binPath w name) = some b → r ∈ b.includes)
+    (hpre : ∀ c, c ∈ pre → w.mtime c = none) : resolveIncludeP w (pre ++ r :: post) = some r := by
+  obtain ⟨mt, b, _, hb, _, _, _, _, _, _, hi, _, _⟩ := never_stale w name h
+  obtain ⟨t, ht, _⟩ := hi r (hr b hb)
+  unfold resolveIncludeP
+  rw [List.find?_append]
+  have : pre.find? (fun c => (w.mtime c).isSome) = none := by
+    rw [List.find?_eq_none]
+    intro c hc
+    simp [hpre c hc]
+  rw [this]
+  simp [ht]
+
+/-! ## (a') what may be saved: no binary for a program laid out for a parent that is no longer current -/
+
+/-- the program blocks reachable from a linked block through `prog->inherit[]` -/
+inductive ReachL (w : World) : String × Nat → String × Nat → Prop where
+  | refl (q : String × Nat) : ReachL w q q
+  | step {q p r : String × Nat} (lp : LoadedProg) : w.progs.lookup q.1 = some lp → p ∈ lp.linked → ReachL w p r →
+      ReachL w q r
+
+theorem progOutdated_false_reach (w : World) {q r : String × Nat} (hr : ReachL w q r) :
+    ∀ fuel, progOutdated w fuel q.1 q.2 = false →
+      ∃ lp, w.progs.lookup r.1 = some lp ∧ lp.gen = r.2 ∧ w.loaded.contains (objName w r.1) = true ∧
+        (∀ f, f ∈ lp.files → ∀ t, w.mtime f = some t → t ≤ lp.loadTime) := by
+  induction hr with
+  | refl q =>
+    intro fuel h
+    cases fuel with
+    | zero => simp [progOutdated] at h
+    | succ fuel =>
+      unfold progOutdated at h
+      cases hl : w.progs.lookup q.1 with
+      | none => rw [hl] at h; simp at h
+      | some lp =>
+        rw [hl] at h
+        simp only [Bool.or_eq_false_iff] at h
+        refine ⟨lp, rfl, ?_, ?_, ?_⟩
+        · simpa using h.1.1.2
+        · simpa using h.1.1.1
+        · intro f hf
+          apply (checkTimes_ne_zero w lp.loadTime f).mp
+          intro hc
+          have := h.1.2
+          rw [List.any_eq_false] at this
+          exact this f hf (by simpa using hc)
+  | step lp hl hp _ ih =>
+    intro fuel h
+    cases fuel with
+    | zero => simp [progOutdated] at h
+    | succ fuel =>
+      unfold progOutdated at h
+      rw [hl] at h
+      simp only [Bool.or_eq_false_iff] at h
+      have := h.2
+      rw [List.any_eq_false] at this
+      exact ih fuel (by simpa using this _ hp)
+
+/-- **saved_only_against_current_parents**: `save_binary` writes a binary only if EVERY program block the new program
+    is linked with — its parents and, through them, every block reachable by `prog->inherit[]`, at any depth — is still
+    the program of the loaded object of its name and none of the files it was built from (its source, its includes) has
+    been modified since that object was loaded.  So the layout baked into a saved binary (variable and function index
+    offsets of the inherited programs) is the layout the current sources give. -/
+theorem saved_only_against_current_parents (s : Sys) (d : ProgDecl) (linked : List (String × Nat)) (t : Nat)
+    (incs : List String) (h : Ev.sv d.name t incs ∈ (saveStep s d linked).evs) (hnew : Ev.sv d.name t incs ∉ s.evs) :
+    ∀ pg, pg ∈ linked → ∀ r, ReachL s.w pg r →
+      ∃ lp, s.w.progs.lookup r.1 = some lp ∧ lp.gen = r.2 ∧ s.w.loaded.contains (objName s.w r.1) = true ∧
+        (∀ f, f ∈ lp.files → ∀ t, s.w.mtime f = some t → t ≤ lp.loadTime) := by
+  unfold saveStep at h
+  by_cases hs : d.save = true
+  · by_cases ha : saveAllowed s.w linked = true ∧ d.refuse = false
+    · obtain ⟨ha, _⟩ := ha
+      intro pg hpg r hr
+      unfold saveAllowed at ha
+      have : linked.any (fun pg => progOutdated s.w treeFuel pg.1 pg.2) = false := by simpa using ha
+      rw [List.any_eq_false] at this
+      exact progOutdated_false_reach s.w hr treeFuel (by simpa using this pg hpg)
+    · have : (d.refuse || !(saveAllowed s.w linked)) = true := by
+        cases hr : d.refuse <;> cases hsa : saveAllowed s.w linked <;> simp_all
+      simp [hs, this] at h
+      exact absurd h hnew
+  · simp [hs] at h
+    exact absurd h hnew
+
+/-- and it is not more cautious than that: with current parents a `#pragma save_binary` program is saved -/
+theorem current_parents_are_saved (s : Sys) (d : ProgDecl) (linked : List (String × Nat)) (hs : d.save = true)
+    (hr : d.refuse = false) (ha : saveAllowed s.w linked = true) :
+    Ev.sv d.name s.vnow d.includes ∈ (saveStep s d linked).evs := by
+  simp [saveStep, hs, hr, ha]
+
+/-- non-vacuity: a inherits b (block 3, loaded at 1013) inherits c (block 2).  Saved; but not after b.c was edited at
+    1024 while b stays loaded, not after c was loaded again (block 5) under b, not with a header of c touched -/
+example :
+    let w : World := { files := [("a.c", 1002), ("b.c", 1001), ("c.c", 1000), ("c.h", 999)],
+                       progs := [("b.c", { files := ["b.c"], inherits := ["c.c"], gen := 3, loadTime := 1013, linked := [("c.c", 2)] }),
+                                 ("c.c", { files := ["c.c", "c.h"], inherits := [], gen := 2, loadTime := 1013 })],
+                       loaded := ["b", "c"],
+                       objOf := fun n => if n = "b.c" then "b" else if n = "c.c" then "c" else "?",
+                       binOf := fun n => if n = "b.c" then "B/b" else if n = "c.c" then "B/c" else "B/a" }
+    saveAllowed w [("b.c", 3)] = true ∧
+      saveAllowed { w with files := ("b.c", 1024) :: w.files } [("b.c", 3)] = false ∧
+      saveAllowed { w with files := ("c.h", 1024) :: w.files } [("b.c", 3)] = false ∧
+      saveAllowed { w with progs := ("c.c", { files := ["c.c"], inherits := [], gen := 5, loadTime := 1030 }) :: w.progs }
+        [("b.c", 3)] = false ∧
+      saveAllowed { w with loaded := ["c"] } [("b.c", 3)] = false := by
+  decide
+
 /-! ## (b) sort_function_table -/
 
 /-- **swap_loop_correct**: for every table and every permutation `temp` with inverse table `inverse`, the loop of n-1
@@ -279,19 +396,16 @@ theorem swap_loop_correct {α : Type} (tab : Arr α) (temp inverse : Arr Nat) (n
   · have hinv' : SwapInv n tab.get temp.get (n - 1) s' := by simpa using hinv
     exact swapInv_final hinv'
 
-/-- facts about the permutation table that sorting 0..n-1 produces -/
-theorem sortPerm_facts {α : Type} [Inhabited α] (le : α → α → Bool) (table : List α) :
-    let l := sortPerm le table
-    l.length = table.length ∧ (∀ i (h : i < l.length), l[i] < table.length) ∧
+/-- facts about a permutation table: any rearrangement of 0..n-1 (what `quickSort` leaves in `temp`) -/
+theorem permTable_facts (n : Nat) (l : List Nat) (hp : l.Perm (List.range n)) :
+    l.length = n ∧ (∀ i (h : i < l.length), l[i] < n) ∧
       (∀ i j (hi : i < l.length) (hj : j < l.length), l[i] = l[j] → i = j) ∧
-      (∀ j, j < table.length → ∃ i, ∃ h : i < l.length, l[i] = j) := by
-  intro l
-  have hp : l.Perm (List.range table.length) := List.mergeSort_perm _ _
-  have hlen : l.length = table.length := by rw [hp.length_eq, List.length_range]
+      (∀ j, j < n → ∃ i, ∃ h : i < l.length, l[i] = j) := by
+  have hlen : l.length = n := by rw [hp.length_eq, List.length_range]
   have hnd : l.Nodup := hp.nodup_iff.mpr List.nodup_range
   refine ⟨hlen, ?_, ?_, ?_⟩
   · intro i h
-    have : l[i] ∈ List.range table.length := hp.mem_iff.mp (List.getElem_mem h)
+    have : l[i] ∈ List.range n := hp.mem_iff.mp (List.getElem_mem h)
     exact List.mem_range.mp this
   · intro i j hi hj e
     have hpw := List.pairwise_iff_getElem.mp (List.nodup_iff_pairwise_ne.mp hnd)
@@ -303,45 +417,55 @@ theorem sortPerm_facts {α : Type} [Inhabited α] (le : α → α → Bool) (tab
     have : j ∈ l := hp.mem_iff.mpr (List.mem_range.mpr hj)
     exact List.getElem_of_mem this
 
+/-- **sort_perm_from_quicksort**: `quickSort (temp, num, sizeof (int), compare_compiler_funcs)` — the model of the code
+    of lib/misc/qsort.c, not a library sort — never leaves `temp`, and leaves in it a rearrangement of 0..num-1 that,
+    for a comparison that is a strict order, lists the table in non-descending order -/
+theorem sort_perm_from_quicksort {α : Type} [Inhabited α] (lt : α → α → Bool) (table : List α) :
+    ∃ temp, sortPerm lt table = some temp ∧ temp.Perm (List.range table.length) ∧
+      ((∀ x y, lt x y = true → lt y x = false) → (∀ x y z, lt x y = true → lt y z = true → lt x z = true) →
+        temp.Pairwise (fun i j => lt (table.getD j default) (table.getD i default) = false)) := by
+  obtain ⟨l', e, hp, hs⟩ :=
+    quickSortL_spec (fun x y => lt (table.getD x default) (table.getD y default)) (List.range table.length)
+  exact ⟨l', e, hp, fun asym trans => hs (fun x y => asym _ _) (fun x y z => trans _ _ _)⟩
+
 theorem getD_ofList {α : Type} [Inhabited α] (l : List α) (i : Nat) (h : i < l.length) :
     (Arr.ofList l).get i = l[i] := by
   simp [Arr.ofList, List.getD_eq_getElem?_getD, h]
 
-/-- the inverse table computed by the code for the sorted permutation -/
-theorem mkInverse_sortPerm {α : Type} [Inhabited α] (le : α → α → Bool) (table : List α) :
-    let temp := Arr.ofList (sortPerm le table)
-    ∃ inv, mkInverse temp = some inv ∧ inv.size = table.length ∧
-      (∀ i, i < table.length → temp.get i < table.length ∧ inv.get (temp.get i) = i) ∧
-      (∀ j, j < table.length → inv.get j < table.length ∧ temp.get (inv.get j) = j) := by
+/-- the inverse table computed by the code for a permutation table -/
+theorem mkInverse_permTable (n : Nat) (l : List Nat) (hp : l.Perm (List.range n)) :
+    let temp := Arr.ofList l
+    ∃ inv, mkInverse temp = some inv ∧ inv.size = n ∧
+      (∀ i, i < n → temp.get i < n ∧ inv.get (temp.get i) = i) ∧
+      (∀ j, j < n → inv.get j < n ∧ temp.get (inv.get j) = j) := by
   intro temp
-  obtain ⟨hlen, hr, hinj, hsurj⟩ := sortPerm_facts le table
-  have hsz : temp.size = table.length := by simp [temp, Arr.ofList, hlen]
-  have hr' : ∀ i, i < table.length → temp.get i < table.length := by
+  obtain ⟨hlen, hr, hinj, hsurj⟩ := permTable_facts n l hp
+  have hsz : temp.size = n := by simp [temp, Arr.ofList, hlen]
+  have hr' : ∀ i, i < n → temp.get i < n := by
     intro i hi
     rw [getD_ofList _ i (by omega)]
     exact hr i (by omega)
-  have hinj' : ∀ i j, i < table.length → j < table.length → temp.get i = temp.get j → i = j := by
+  have hinj' : ∀ i j, i < n → j < n → temp.get i = temp.get j → i = j := by
     intro i j hi hj e
     rw [getD_ofList _ i (by omega), getD_ofList _ j (by omega)] at e
     exact hinj i j (by omega) (by omega) e
-  obtain ⟨inv, e, hs, hv⟩ := inverseLoop_spec temp table.length hsz hr' hinj' table.length (Nat.le_refl _)
+  obtain ⟨inv, e, hs, hv⟩ := inverseLoop_spec temp n hsz hr' hinj' n (Nat.le_refl _)
   refine ⟨inv, ?_, hs, ?_, ?_⟩
   · simp [mkInverse, hsz, e]
   · intro i hi; exact ⟨hr' i hi, hv i hi⟩
   · intro j hj
     obtain ⟨i, hi, eij⟩ := hsurj j hj
-    have hi' : i < table.length := by omega
+    have hi' : i < n := by omega
     have : temp.get i = j := by rw [getD_ofList _ i hi]; exact eij
     rw [← this, hv i hi']
     exact ⟨hi', rfl⟩
 
-/-- the sorted table as a list: entry k is the old entry number `temp[k]` -/
-def sortedBy {α : Type} [Inhabited α] (le : α → α → Bool) (table : List α) : List α :=
-  (sortPerm le table).map (fun x => table.getD x default)
+/-- the table read through a permutation table: entry k is the old entry number `temp[k]` -/
+def sortedBy {α : Type} [Inhabited α] (temp : List Nat) (table : List α) : List α :=
+  temp.map (fun x => table.getD x default)
 
-theorem sortedBy_perm {α : Type} [Inhabited α] (le : α → α → Bool) (table : List α) :
-    (sortedBy le table).Perm table := by
-  have hp : (sortPerm le table).Perm (List.range table.length) := List.mergeSort_perm _ _
+theorem sortedBy_perm {α : Type} [Inhabited α] (temp : List Nat) (table : List α)
+    (hp : temp.Perm (List.range table.length)) : (sortedBy temp table).Perm table := by
   have h1 := hp.map (fun x => table.getD x default)
   have h2 : (List.range table.length).map (fun x => table.getD x default) = table := by
     apply List.ext_getElem
@@ -351,30 +475,22 @@ theorem sortedBy_perm {α : Type} [Inhabited α] (le : α → α → Bool) (tabl
   rw [h2] at h1
   exact h1
 
-theorem sortedBy_sorted {α : Type} [Inhabited α] (le : α → α → Bool)
-    (trans : ∀ a b c, le a b = true → le b c = true → le a c = true)
-    (total : ∀ a b, (le a b || le b a) = true) (table : List α) :
-    (sortedBy le table).Pairwise (fun a b => le a b = true) := by
-  unfold sortedBy
-  rw [List.pairwise_map]
-  exact List.pairwise_mergeSort (le := fun x y => le (table.getD x default) (table.getD y default))
-    (fun a b c => trans _ _ _) (fun a b => total _ _) _
-
-/-- **perm_sort_correct**: for every function table and every comparison order `le` (transitive and total), the code
-    of `sort_function_table` — permutation table, inverse table, n-1 swaps — does not leave its arrays and yields the
-    table sorted by `le`, which is a permutation of the old table. -/
-theorem perm_sort_correct {α : Type} [Inhabited α] (le : α → α → Bool)
-    (trans : ∀ a b c, le a b = true → le b c = true → le a c = true)
-    (total : ∀ a b, (le a b || le b a) = true) (table : List α) :
-    ∃ inv out, mkInverse (Arr.ofList (sortPerm le table)) = some inv ∧
-      swapLoop (Arr.ofList table) (Arr.ofList (sortPerm le table)) inv = some out ∧
-      out.toList = sortedBy le table ∧
-      (out.toList).Pairwise (fun a b => le a b = true) ∧ (out.toList).Perm table := by
-  obtain ⟨inv, e, hs, h1, h2⟩ := mkInverse_sortPerm le table
-  obtain ⟨hlen, _, _, _⟩ := sortPerm_facts le table
-  obtain ⟨out, eo, hsz, hv⟩ := swap_loop_correct (Arr.ofList table) (Arr.ofList (sortPerm le table)) inv table.length
+/-- **perm_sort_correct**: for every function table and every comparison `lt` that is a strict order, the code of
+    `sort_function_table` — `quickSort` on the permutation table (the code of qsort.c), inverse table, n-1 swaps — does
+    not leave its arrays and yields the table in non-descending order, a permutation of the old table. -/
+theorem perm_sort_correct {α : Type} [Inhabited α] (lt : α → α → Bool)
+    (asym : ∀ x y, lt x y = true → lt y x = false)
+    (trans : ∀ x y z, lt x y = true → lt y z = true → lt x z = true) (table : List α) :
+    ∃ temp inv out, sortPerm lt table = some temp ∧ mkInverse (Arr.ofList temp) = some inv ∧
+      swapLoop (Arr.ofList table) (Arr.ofList temp) inv = some out ∧
+      out.toList = sortedBy temp table ∧
+      (out.toList).Pairwise (fun a b => lt b a = false) ∧ (out.toList).Perm table := by
+  obtain ⟨temp, et, hp, hsorted⟩ := sort_perm_from_quicksort lt table
+  obtain ⟨inv, e, hs, h1, h2⟩ := mkInverse_permTable table.length temp hp
+  obtain ⟨hlen, _, _, _⟩ := permTable_facts table.length temp hp
+  obtain ⟨out, eo, hsz, hv⟩ := swap_loop_correct (Arr.ofList table) (Arr.ofList temp) inv table.length
     (by simp [Arr.ofList]) (by simp [Arr.ofList, hlen]) hs h1 h2
-  have hl : out.toList = sortedBy le table := by
+  have hl : out.toList = sortedBy temp table := by
     apply List.ext_getElem
     · simp [Arr.toList, sortedBy, hsz, hlen]
     · intro i hi1 hi2
@@ -382,9 +498,12 @@ theorem perm_sort_correct {α : Type} [Inhabited α] (le : α → α → Bool)
       simp only [Arr.toList, sortedBy, List.getElem_map, List.getElem_range]
       rw [hv i hi, getD_ofList _ i (by omega)]
       simp [Arr.ofList]
-  refine ⟨inv, out, e, eo, hl, ?_, ?_⟩
-  · rw [hl]; exact sortedBy_sorted le trans total table
-  · rw [hl]; exact sortedBy_perm le table
+  refine ⟨temp, inv, out, et, e, eo, hl, ?_, ?_⟩
+  · rw [hl]
+    unfold sortedBy
+    rw [List.pairwise_map]
+    exact hsorted asym trans
+  · rw [hl]; exact sortedBy_perm temp table hp
 
 /-- the order of `compare_compiler_funcs` is transitive and total -/
 theorem cfLe_trans (a b c : CF) : cfLe a b = true → cfLe b c = true → cfLe a c = true := by
@@ -395,17 +514,38 @@ theorem cfLe_total (a b : CF) : (cfLe a b || cfLe b a) = true := by
   unfold cfLe
   cases a.hash <;> cases b.hash <;> simp <;> omega
 
+/-- `compare_compiler_funcs (x, y) < 0` is a strict order, and "not below" is `<= 0` the other way round -/
+theorem cfLt_asymm (a b : CF) : cfLt a b = true → cfLt b a = false := by
+  unfold cfLt
+  cases a.hash <;> cases b.hash <;> simp <;> omega
+
+theorem cfLt_trans (a b c : CF) : cfLt a b = true → cfLt b c = true → cfLt a c = true := by
+  unfold cfLt
+  cases a.hash <;> cases b.hash <;> cases c.hash <;> simp <;> omega
+
+theorem cfLt_false_iff (a b : CF) : cfLt b a = false ↔ cfLe a b = true := by
+  unfold cfLt cfLe
+  cases a.hash <;> cases b.hash <;> simp
+
+/-- the function table after `sort_function_table` is in the order of `compare_compiler_funcs` -/
+theorem function_table_sorted (table : List CF) :
+    ∃ temp inv out, sortPerm cfLt table = some temp ∧ mkInverse (Arr.ofList temp) = some inv ∧
+      swapLoop (Arr.ofList table) (Arr.ofList temp) inv = some out ∧
+      (out.toList).Pairwise (fun a b => cfLe a b = true) ∧ (out.toList).Perm table := by
+  obtain ⟨temp, inv, out, h1, h2, h3, _, h5, h6⟩ := perm_sort_correct cfLt cfLt_asymm cfLt_trans table
+  exact ⟨temp, inv, out, h1, h2, h3, h5.imp (fun h => (cfLt_false_iff _ _).mp h), h6⟩
+
 /-- non-vacuity: the real comparison order on a table with a '#' function in the middle -/
-example := perm_sort_correct cfLe cfLe_trans cfLe_total
+example := function_table_sorted
   [⟨30, false, "c"⟩, ⟨5, true, "#global_init#"⟩, ⟨10, false, "a"⟩, ⟨20, false, "b"⟩]
 
 example :
     let t : List CF := [⟨30, false, "c"⟩, ⟨5, true, "#global_init#"⟩, ⟨10, false, "a"⟩, ⟨20, false, "b"⟩]
-    sortPerm cfLe t = [2, 3, 0, 1] ∧
+    sortPerm cfLt t = some [2, 3, 0, 1] ∧
     (do let inv ← mkInverse (Arr.ofList [2, 3, 0, 1])
         let out ← swapLoop (Arr.ofList t) (Arr.ofList [2, 3, 0, 1]) inv
         pure (out.toList.map (·.tag))) = some ["a", "b", "c", "#global_init#"] := by
-  refine ⟨by simp [sortPerm, List.mergeSort, List.merge, List.MergeSort.Internal.splitInTwo, cfLe, List.range, List.range.loop], by decide⟩
+  refine ⟨by decide, by decide⟩
 
 /-- **remap_points_at_same_function**: when the slots the two remap loops visit are pairwise distinct and hold valid
     function numbers, every visited `f_index` is replaced by its image under `inverse`, i.e. it designates the same
@@ -497,6 +637,34 @@ example : locateIn 0x5000#64 (locateOut 0x1000#64
     = ⟨0x50a8, 0x5100, 0x5200, 0x5300, 0x5400, 0x5500, 0x5600, 0x5700, 0x4000, 0x5800, 0x5900, 0x5a00, 0x5b00⟩ := by
   decide
 
+/-- **relocation_members_tied**: the members that `locate_out` and `locate_in` relocate in the source — read from both
+    functions on every run, with the ones under `if (prog->type_start)` marked — are exactly the members of the model's
+    `ProgPtrs`, in the same order and under the same guard, on both sides -/
+theorem relocation_members_tied :
+    Gen.C17.locateOutMembers = relocatedMembers ∧ Gen.C17.locateInMembers = relocatedMembers ∧
+      relocatedMembers.length = (ProgPtrs.fields ⟨0, 0, 0, 0, 0, 0, 0, 0, 0, 0, 0, 0, 0⟩).length := by
+  decide
+
+/-- **every_pointer_member_handled**: every pointer-typed member of `program_t` (read from lib/lpc/program.h on every
+    run) is either relocated by locate_out/locate_in or is one of the members that do not point into the program
+    block, and those `load_binary` assigns itself; a pointer member added to the struct breaks this obligation until it
+    is put into one of the two lists -/
+theorem every_pointer_member_handled :
+    (∀ m, m ∈ Gen.C17.programPointerMembers → m ∈ relocatedMembers.map (·.1) ∨ m ∈ rebuiltMembers) ∧
+      (∀ m, m ∈ rebuiltMembers → m ∈ Gen.C17.loadBinaryAssigns) ∧
+      (∀ m, m ∈ relocatedMembers.map (·.1) → m ∈ Gen.C17.programPointerMembers) := by
+  decide
+
+/-- **only_switch_keys_are_addresses**: the operands the code generator stores as machine words (`ins_intptr`, read from
+    icode.c on every run) are the three kinds of switch-table key the model knows; the only address among them is the
+    string-switch key, which is what the patch list covers (`all_string_switches_patched`).  A new address-valued operand
+    (a function name, a class name …) emitted into the byte code breaks this obligation. -/
+theorem only_switch_keys_are_addresses : Gen.C17.intptrOperands = modelIntptrOperands := by
+  decide
+
+/-- the model of qsort.c mirrors as many statements as qSort + quickSort have -/
+theorem qsort_statements_tied : Gen.C17.qsortStatements = modelQsortStatements := by decide
+
 /-! ## (d) string switch tables -/
 
 theorem swLe_trans (a b c : SwEntry) : swLe a b = true → swLe b c = true → swLe a c = true := by
@@ -504,6 +672,21 @@ theorem swLe_trans (a b c : SwEntry) : swLe a b = true → swLe b c = true → s
 
 theorem swLe_total (a b : SwEntry) : (swLe a b || swLe b a) = true := by
   simp only [swLe, Bool.or_eq_true, decide_eq_true_eq]; omega
+
+theorem swLt_asymm (a b : SwEntry) : swLt a b = true → swLt b a = false := by
+  simp only [swLt, decide_eq_true_eq, decide_eq_false_iff_not]; omega
+
+theorem swLt_trans (a b c : SwEntry) : swLt a b = true → swLt b c = true → swLt a c = true := by
+  simp only [swLt, decide_eq_true_eq]; omega
+
+/-- `quickSort (…, str_case_cmp)` on any table: succeeds, same entries, ascending keys -/
+theorem quickSort_switch_table (es : List SwEntry) :
+    ∃ out, quickSortL swLt es = some out ∧ out.Perm es ∧ out.Pairwise (fun a b => a.key ≤ b.key) := by
+  obtain ⟨out, e, hp, hs⟩ := quickSortL_spec swLt es
+  refine ⟨out, e, hp, (hs swLt_asymm swLt_trans).imp ?_⟩
+  intro a b h
+  simp only [swLt, decide_eq_false_iff_not] at h
+  omega
 
 /-- **switch_tables_sorted_after_patch**: whatever addresses the strings of a reloaded program received, after
     `patch_in` every string switch table is in ascending order of the key compared as a signed 64-bit integer — the
@@ -523,18 +706,30 @@ theorem switch_tables_sorted_after_patch (strings : List Int) (es out : List SwE
   | none => rw [hm] at h; cases h
   | some es' =>
     rw [hm] at h
-    have : out = es'.mergeSort swLe := by
-      simp at h
+    obtain ⟨o, e, hp, hs⟩ := quickSort_switch_table es'
+    have : out = o := by
+      simp [e] at h
       exact h.symm
     subst this
-    refine ⟨?_, es', rfl, List.mergeSort_perm _ _⟩
-    have := List.pairwise_mergeSort (le := swLe) swLe_trans swLe_total es'
-    exact this.imp (fun h => by simpa [swLe] using h)
+    exact ⟨hs, es', rfl, hp⟩
+
+/-- `patch_in` converts every table whose indices are inside the string table (it cannot fail in the sort) -/
+theorem patch_in_total (strings : List Int) (es es' : List SwEntry)
+    (hm : es.mapM (fun e =>
+        if e.key = -1 then some { e with key := 0 }
+        else if e.key < 0 then none
+        else (strings[e.key.toNat]?).map (fun p => { e with key := p })) = some es') :
+    ∃ out, patchInTable strings es = some out ∧ out.Perm es' ∧ out.Pairwise (fun a b => a.key ≤ b.key) := by
+  obtain ⟨o, e, hp, hs⟩ := quickSort_switch_table es'
+  refine ⟨o, ?_, hp, hs⟩
+  unfold patchInTable
+  rw [hm]
+  simpa using e
 
 /-- non-vacuity: indices 0..3 and the 0 label, strings at far apart addresses (more than 2^32 between them) -/
 example : patchInTable [4096, 8192, 100, 6442450944] [⟨0, 10⟩, ⟨1, 11⟩, ⟨2, 12⟩, ⟨3, 13⟩, ⟨-1, 9⟩]
     = some [⟨0, 9⟩, ⟨100, 12⟩, ⟨4096, 10⟩, ⟨8192, 11⟩, ⟨6442450944, 13⟩] := by
-  simp [patchInTable, List.mergeSort, List.merge, List.MergeSort.Internal.splitInTwo, swLe]
+  decide
 
 /-- mapping back what was mapped out, entry by entry -/
 theorem mapM_roundtrip {α β : Type} (f : α → Option β) (g : β → Option α)
@@ -598,16 +793,10 @@ theorem patch_entry_roundtrip (strings : List Int) (e e' : SwEntry)
     order `f_switch` searches — for ANY table, sorted or not, and any string table. -/
 theorem patch_roundtrip (strings : List Int) (es mid : List SwEntry)
     (h : patchOutTable strings es = some mid) :
-    patchInTable strings mid = some (es.mergeSort swLe) ∧ (es.mergeSort swLe).Perm es ∧
-      (es.mergeSort swLe).Pairwise (fun a b => a.key ≤ b.key) := by
+    ∃ out, patchInTable strings mid = some out ∧ out.Perm es ∧ out.Pairwise (fun a b => a.key ≤ b.key) := by
   unfold patchOutTable at h
   have hback := mapM_roundtrip _ _ (patch_entry_roundtrip strings) es mid h
-  refine ⟨?_, List.mergeSort_perm _ _, ?_⟩
-  · unfold patchInTable
-    rw [hback]
-    rfl
-  · have := List.pairwise_mergeSort (le := swLe) swLe_trans swLe_total es
-    exact this.imp (fun h => by simpa [swLe] using h)
+  exact patch_in_total strings mid es hback
 
 /-- non-vacuity: a table with the 0 label; addresses more than 2^32 apart -/
 example : patchOutTable [4096, 8192, 100, 6442450944] [⟨0, 9⟩, ⟨100, 12⟩, ⟨4096, 10⟩, ⟨6442450944, 13⟩]
